@@ -18,6 +18,8 @@ pub struct RustDocument {
     pub(crate) namespaces: Vec<Rc<Namespace>>,
     pub(crate) target_namespaces: Vec<Rc<Namespace>>,
     pub(crate) current_target_namespace: Option<Rc<Namespace>>,
+    /// the default namespace (`xmlns="..."`) of the file: what an unprefixed reference denotes
+    pub(crate) default_namespace: Option<String>,
     pub(crate) nodes: Vec<Rc<RustNode>>,
     /// nodes the importing document had already read when this (imported) document was started;
     /// they can be referred to, but they are not part of this document
@@ -74,6 +76,7 @@ impl RustDocument {
             namespaces: Vec::new(),
             target_namespaces: Vec::new(),
             current_target_namespace: None,
+            default_namespace: None,
             nodes: Vec::new(),
             known_nodes: Vec::new(),
             resolving: Vec::new(),
@@ -119,12 +122,25 @@ impl RustDocument {
         self.namespaces.push(ns);
     }
 
+    /// The default namespace is bound to the empty prefix. It gets no abbreviation of its own: an
+    /// unprefixed reference resolves only when that namespace is known otherwise (as a target
+    /// namespace or through a prefix).
+    pub fn add_default_namespace(&mut self, url: &str) {
+        if url.is_empty() || WELL_KNOWN_NAMESPACES.contains(&url) || self.default_namespace.is_some() {
+            return;
+        }
+        self.default_namespace = Some(url.to_string());
+    }
+
     pub fn find_module_name_from_namespace_reference(&self, abbreviation: &str) -> Option<&str> {
         self.find_namespace_by_abbreviation(abbreviation)
             .map(|ns| ns.rust_mod_name.as_str())
     }
 
     pub fn find_namespace_by_abbreviation(&self, abbreviation: &str) -> Option<&Rc<Namespace>> {
+        if abbreviation.is_empty() {
+            return self.default_namespace.as_deref().and_then(|url| self.find_namespace(url));
+        }
         self.namespace_lookup.get(abbreviation)
     }
 
